@@ -61,6 +61,11 @@ META = dict(
                'all laws are decided on the full pair matrix. Each copy '
                'operation is followed by one-at-a-time mutations of the copy '
                'with the fingerprint of the original re-taken after each. '
+               'Free objects of the pool (laws only): key values in another '
+               'python representation, names with characters whose lower() '
+               'and casefold() forms disagree. Every object is also hashed, '
+               'taken through a copy operation or none, changed in place and '
+               'compared with a never-hashed twin that got the same changes. '
                'Held-on-K-executions evidence, not a proof.',
     level_note='Trusted: vf/equiv.py (rebuild through public constructors), '
                'vf/fingerprint.py (strict fingerprint incl. scopes), python '
